@@ -326,6 +326,20 @@ def _recreate(b: G.Built, p, img: bytes, o: Oracle) -> None:
         if b.cls["image_type"] != 3:
             n = min(64, len(img3))
             o.check("recreate", img3[:0x20] == img[:0x20] and img3[0x38:n] == img[0x38:n], "payload_start", first_diff(img3[:n], img[:n]))
+            if b.reloc:
+                # application and relocation table (additional images, their lengths and addresses) come back as they were
+                want_app = G.pad4(b.app)
+                app_end = len(want_app) + len(G.expected_reloc_block(b, len(want_app)))
+                app_end = min(app_end, len(img), len(img3))
+                o.check("recreate", img3[0x38:app_end] == img[0x38:app_end], "application_and_relocation_table", first_diff(img3[0x38:app_end], img[0x38:app_end]))
+    # the files `nxpimage mbi parse` writes next to the configuration are the payloads that were given
+    if b.reloc and isinstance(cfg.get("applicationTable"), list):
+        with o.spsdk("recreate", "additional_image_files"):
+            got = {}
+            for e in cfg["applicationTable"]:
+                with open(os.path.join(out, e["binary"]), "rb") as f:
+                    got[int(e["destAddress"])] = f.read()
+            o.eq("recreate", "additional_images", got, {dest: data for data, dest in b.reloc})
 
 
 def _classify(b: G.Built, o: Oracle) -> None:
